@@ -97,6 +97,10 @@ func generalPlan(tier string, faults bool) []PlanItem {
 		{scnElect("elect2-K3", K3, "A", "B"), d},
 		{scnFailoverDel("failover-del2-K3", K3, "A", "B"), d},
 		{scnElect("elect4-K1", K1, "A", "B", "C", "D"), d},
+		// equal priorities with takeover enabled: nobody may preempt anybody, but every
+		// failed Create goes through the takeover path
+		{equalPrioTakeover(scnElect("elect2-takeover-equal-K1", K1, "A", "B")), d},
+		{equalPrioTakeover(scnFailoverDel("failover-del2-takeover-equal-K1", K1, "A", "B")), d + 1},
 		{scn2groups("2groups-K1", K1), d},
 	}
 	for _, sv := range stopVariants {
@@ -127,6 +131,8 @@ func generalPlan(tier string, faults bool) []PlanItem {
 			PlanItem{scnHealthWindowTakeover("takeover-inside-health-check-K1", K1), d},
 			PlanItem{scnFollowerTakeover("follower-takeover-K1", K1), d},
 			PlanItem{scnReelectLinger("reelect-lingering-callbacks-K1", K1), d},
+			PlanItem{scnReelectSlowMetric("reelect-during-slow-demotion-metric-K1", K1), d},
+			PlanItem{scnTwoRoundsThenDelete("two-rounds-then-outside-delete-K1", K1), d},
 			PlanItem{scnFailoverTamper("failover-then-outside-delete-K1", K1, "delete"), d},
 			PlanItem{scnFailoverTamper("failover-then-outside-put-K1", K1, "put"), d},
 			PlanItem{scnPrio("preempt-chain-123-K1", []prioOpt{{1, false}, {2, true}, {3, true}}, []string{"A", "B", "C"}, false), d},
@@ -239,4 +245,58 @@ func scnReelectLinger(name string, k kfn) *Scenario {
 	s.Script = append(s.Script, Item{At: 1*s.H + s.H/2 + 7*us, Actor: "outside", Do: "delete"})
 	s.Horizon = 2*s.H + 5*s.H
 	return s.faultFree()
+}
+
+// two-rounds-then-outside-delete: B follows a record written from outside; the record is
+// deleted, rewritten and deleted again at one instant, so that B's watcher starts two
+// acquisition rounds whose Creates are in flight together; 245 ms later an outside party
+// deletes the key again (the explorer may fire that delete earlier, e.g. between the two
+// answers: the second Create then succeeds on an instance that already leads).
+func scnTwoRoundsThenDelete(name string, k kfn) *Scenario {
+	s := k(&Scenario{Name: name})
+	s.Insts = []InstSpec{{ID: "B"}}
+	z := `{"id":"Z","token":"tz","priority":0}`
+	s.Script = []Item{
+		{At: 0, Actor: "outside", Do: "put", Payload: z, Fixed: true},
+		{At: 1 * ms, Actor: "startB", Do: "start", Inst: "B", Fixed: true},
+		// (B's start-time acquisition round gives up at 406 ms)
+		{At: 450 * ms, Actor: "outside", Do: "delete", Fixed: true},
+		{At: 450 * ms, Actor: "outside", Do: "put", Payload: z, Fixed: true},
+		{At: 450 * ms, Actor: "outside", Do: "delete", Fixed: true},
+		{At: 750 * ms, Actor: "outside2", Do: "delete"},
+	}
+	s.Horizon = 750*ms + 5*s.H
+	s = s.faultFree()
+	s.RandMenu = nil
+	s.DevFrom, s.DevUntil = 500*ms, 770*ms
+	return s
+}
+
+// reelect-during-slow-demotion-metric: A (alone, watcher running because it followed an
+// outside record first) loses its record to an outside delete 45 ms before a heartbeat; the
+// heartbeat demotes it, and the acquisition round started by the delete notification wins
+// the vacant key 10 ms later, while the demotion is still inside the application's slow
+// Metrics.IncTransitions (300 ms).
+func scnReelectSlowMetric(name string, k kfn) *Scenario {
+	s := k(&Scenario{Name: name})
+	s.Insts = []InstSpec{{ID: "A", SlowDemoteMetric: 300 * ms}}
+	z := `{"id":"Z","token":"tz","priority":0}`
+	s.Script = []Item{
+		{At: 0, Actor: "outside", Do: "put", Payload: z, Fixed: true},
+		{At: 1 * ms, Actor: "startA", Do: "start", Inst: "A", Fixed: true},
+		{At: 450 * ms, Actor: "outside", Do: "delete", Fixed: true}, // A wins at 505 ms; heartbeats at 705, 905, ...
+		{At: 660 * ms, Actor: "outside", Do: "delete"},
+	}
+	s.Horizon = 705*ms + 300*ms + 5*s.H
+	s = s.faultFree()
+	s.RandMenu = nil
+	s.DevFrom = 600 * ms
+	return s
+}
+
+func equalPrioTakeover(s *Scenario) *Scenario {
+	for i := range s.Insts {
+		s.Insts[i].Priority, s.Insts[i].Takeover = 1, true
+	}
+	return s
 }
